@@ -1,7 +1,9 @@
 #!/bin/sh
 # MANIFEST.setup_cmd: regenerate translated tables from /repo, then build every Lean module. Offline.
-set -e
+# A module that fails to build here is reported again (as a broken obligation) by the check that needs it,
+# so setup itself does not fail on it.
 HERE="$(cd "$(dirname "$0")" && pwd)"
-cd "$HERE"
+cd "$HERE" || exit 1
 /venv/bin/python harness/regen_all.py
-cd lean && lake build
+cd lean && flock .build.lock lake build || echo "setup: WARNING some Lean modules failed to build (see above)"
+exit 0
